@@ -702,7 +702,7 @@ func runChild(res *mon.Result, bin string, idx int, base string) {
 		return
 	}
 	res.Count("configs_started", 1)
-	nb := mon.N(24, 60)
+	nb := mon.N(24, 40)
 	died := false
 	for b := 0; b < nb && !died; b++ {
 		kind := r.Intn(10)
@@ -921,7 +921,7 @@ func main() {
 		res.Write()
 		return
 	}
-	n := mon.N(40, 1500)
+	n := mon.N(40, 600)
 	ran := 0
 	for i := 0; i < n; i++ {
 		if !mon.Mine(i) {
